@@ -17,6 +17,16 @@ static std::string oracle(const Case& c) {
         if (k.rand_total != 19) return "create took " + std::to_string(k.rand_total) + " random bytes"; if (k.time_calls < 1) return "create did not ask the injected clock";
         ev.eval(); ev.nt(c); ev.count("single-bit-random-output"); if (b == 0 || b == 151) ev.sample("bit", c); return "";
     }
+    if (c.get("kind") == "echo") {
+        // a random source that writes nothing: the secret must then be what the buffer held when the source returned (whatever the
+        // library had put there), taken in one pass of 19 bytes - the library may not second-guess its random source
+        deps::Kit& k = deps::kit(0); k.reset_all(); deps::inject(0); polyseed_enable_features(0); k.rand_echo = true; k.clock = c.u("t");
+        polyseed_data* s = nullptr; int st = polyseed_create(0, &s); if (st != 0) return std::string("create returned ") + model::status_name(st) + " with a random source that leaves the buffer untouched";
+        lib::Image img = lib::store(s); polyseed_free(s); std::vector<uint8_t> want = k.rand_left; want.resize(19, 0); want[18] &= 0x3F; k.rand_echo = false;
+        if (k.rand_total != 19) return "create asked the random source for " + std::to_string(k.rand_total) + " bytes in " + std::to_string(k.rand_calls.size()) + " calls when the source left the buffer untouched; it takes 19 bytes, once";
+        if (memcmp(img.data() + 10, want.data(), 19) != 0) return "the secret " + hex(img.data() + 10, 19) + " is not what the buffer held when the random source returned (" + hex(want) + ")";
+        ev.eval(); ev.nt(c); ev.count("random-source-writes-nothing"); ev.sample("echo", c); return "";
+    }
     if (c.get("kind") == "pair") {
         // "a later injection replaces every entry", for injections that change two entries at once while all others stay the same:
         // mode 0: both normalisers are one shared function of set A, then one shared function of set B; mode 1: the two normaliser
@@ -63,6 +73,7 @@ static void run() {
     Args& a = W().args; { Case c; c.set("phase", "setup"); set_current(c); deps::inject(0); model::require_self_check(); }
     uint64_t done = 0;
     for (int inv = 0; inv < 2; inv++) for (int b = 0; b <= 152; b++) { if ((b + inv) % a.nworkers != a.worker) continue; Case c; c.set("kind", "bit"); c.set("bit", (uint64_t)b); c.set("invert", (uint64_t)inv); c.set("t", model::EPOCH + (uint64_t)b * 7777777ull); set_current(c); std::string m = oracle(c); done++; if (!m.empty() && enum_fail(c, m)) return; }
+    if (a.worker == 0) { Case c; c.set("kind", "echo"); c.set("t", model::EPOCH + 99); set_current(c); std::string m = oracle(c); if (!m.empty() && enum_fail(c, m)) return; }
     for (int mode = 0; mode < 4; mode++) if (mode % a.nworkers == a.worker % 4 && a.worker < 4) { Case c; c.set("kind", "pair"); c.set("mode", (uint64_t)mode); set_current(c); std::string m = oracle(c); if (!m.empty() && enum_fail(c, m)) return; }
     W().ev.enumerated["single-bit (and complemented) random-source outputs plus the all-zero and all-one outputs, 153 x 2"] += done;
     seqgen::Weights wt{{10, 3, 10, 5, 5, 5, 5, 4, 2, 4, 2, 6, 1, 1}};
